@@ -146,12 +146,18 @@ type c07Tracer struct {
 	// cancelAt == 3: let one more instruction be fetched so that its pc can be observed
 	cancelAt int
 	pc3      uint64
+	faults   int
 }
 
 func (t *c07Tracer) CaptureStart(from common.Address, to common.Address, call bool, input []byte, gas uint64, value *big.Int) error {
 	return nil
 }
 func (t *c07Tracer) CaptureState(env *EVM, pc uint64, op OpCode, gas, cost uint64, memory *Memory, stack *Stack, contract *Contract, depth int, err error) error {
+	if err != nil {
+		// deferred call made by Run when an instruction was refused: not a traced instruction
+		t.faults++
+		return nil
+	}
 	t.n++
 	switch t.n {
 	case 1:
@@ -192,6 +198,16 @@ func c07Sets() []c07Set {
 	}
 }
 
+// (offset, size) operand positions (counted from the top of the stack) of the
+// memory windows each instruction touches; size -1: fixed-size access.
+var c07Windows = map[OpCode][][2]int{
+	SHA3: {{0, 1}}, CALLDATACOPY: {{0, 2}}, CODECOPY: {{0, 2}}, EXTCODECOPY: {{1, 3}}, RETURNDATACOPY: {{0, 2}},
+	MLOAD: {{0, -1}}, MSTORE: {{0, -1}}, MSTORE8: {{0, -1}},
+	LOG0: {{0, 1}}, LOG1: {{0, 1}}, LOG2: {{0, 1}}, LOG3: {{0, 1}}, LOG4: {{0, 1}},
+	CREATE: {{1, 2}}, CALL: {{3, 4}, {5, 6}}, CALLCODE: {{3, 4}, {5, 6}}, DELEGATECALL: {{2, 3}, {4, 5}}, STATICCALL: {{2, 3}, {4, 5}},
+	RETURN: {{0, 1}}, REVERT: {{0, 1}},
+}
+
 func c07memCost(bytes uint64) uint64 { w := bytes / 32; return w*3 + w*w/512 }
 
 // minimal depth at which validateStack accepts (probed concretely on the real table)
@@ -211,14 +227,29 @@ func VerifC07_Step() {
 	set := sets[vs.Choice("set", vs.Param("sets"))]
 	opc := OpCode(vs.Param("opLo") + vs.Choice("op", vs.Param("opHi")-vs.Param("opLo")+1))
 	operation := &set.table[opc]
+	// instructions whose intermediates need more than 264 bits (x*y, value<<n) run in the
+	// "wide" instance of this harness (big width 520); all others in the narrow one (264)
+	needsWide := opc == MUL || opc == MULMOD || opc == SHL || opc == SDIV // SDIV takes the sign of x*y
+	if needsWide != (vs.Param("wide") != 0) {
+		return
+	}
+	// the quick tier skips the middle members of the PUSH/DUP/SWAP families (same code, different constant)
+	if vs.Param("families") == 0 {
+		if (opc > PUSH1 && opc < PUSH32 && opc != PUSH2) || (opc > DUP1 && opc < DUP16) || (opc > SWAP1 && opc < SWAP16) {
+			return
+		}
+	}
 
 	// depths that validateStack can distinguish for this operation
 	depth := 0
 	if operation.valid {
 		p := c07MinDepth(operation)
-		cands := []int{p, 1023, 1024}
+		cands := []int{p, 1024}
 		if p > 0 {
 			cands = append(cands, p-1)
+		}
+		if vs.Param("families") != 0 {
+			cands = append(cands, 1023)
 		}
 		depth = cands[vs.Choice("depth", len(cands))]
 	}
@@ -260,7 +291,7 @@ func VerifC07_Step() {
 
 	g := vs.U64("gas")
 	vs.Assume(g < 1<<63)
-	memL := uint64(32 * vs.Choice("memwords", 3))
+	memL := uint64(64 * vs.Choice("memwords", vs.Param("memChoices")))
 	tr := &c07Tracer{}
 	var entries []*big.Int
 	tr.inject = func(mem *Memory, stack *Stack, contract *Contract) {
@@ -271,8 +302,30 @@ func VerifC07_Step() {
 		for i := 0; i < depth-nsym; i++ {
 			stack.push(new(big.Int))
 		}
-		for i := 0; i < nsym; i++ {
-			v := vs.BigU("stk", 256)
+		vals := make([]*big.Int, nsym)
+		for i := range vals {
+			vals[i] = vs.BigU("stk", 256)
+		}
+		// bound of the harness: memory windows are small (offset <= 3, size in a list that
+		// crosses the word boundary) or enormous (the step must then be refused); windows in
+		// between only differ in how many bytes are copied and are outside the bound
+		for _, w := range c07Windows[opc] {
+			o, z := nsym-1-w[0], nsym-1-w[1]
+			if o < 0 || (w[1] >= 0 && z < 0) {
+				continue
+			}
+			if vs.Choice("window", 2) == 0 {
+				vs.Assume(vals[o].Cmp(big.NewInt(3)) <= 0)
+				if w[1] >= 0 {
+					vals[z] = big.NewInt([]int64{0, 1, 32, 33}[vs.Choice("wsize", 4)])
+				}
+			} else if w[1] >= 0 {
+				vs.Assume(vals[z].Cmp(big.NewInt(1<<32)) >= 0)
+			} else {
+				vs.Assume(vals[o].Cmp(big.NewInt(1<<32)) >= 0)
+			}
+		}
+		for _, v := range vals {
 			entries = append(entries, v)
 			stack.push(v)
 		}
@@ -360,19 +413,25 @@ func c07DivChecks(y *big.Int) {
 }
 func c07Quot(z, x, y *big.Int) *big.Int {
 	c07DivChecks(y)
-	r := vs.Big("quot")
-	vs.Assume(r.CmpAbs(x) <= 0)
-	return z.Set(r)
+	m := vs.BigU("quot", 258)
+	vs.Assume(m.CmpAbs(x) <= 0) // |q| <= |x|
+	if vs.Bool("quot.neg") {
+		m.Neg(m)
+	}
+	return z.Set(m)
 }
-func c07RemT(z, x, y *big.Int) *big.Int { // truncated remainder: sign of x
+func c07RemT(z, x, y *big.Int) *big.Int { // truncated remainder: |r| < |y|, sign of x
 	c07DivChecks(y)
-	r := vs.Big("rem")
-	vs.Assume(r.CmpAbs(y) < 0)
-	return z.Set(r)
+	m := vs.BigU("rem", 258)
+	vs.Assume(m.CmpAbs(y) < 0)
+	if x.Sign() < 0 {
+		m.Neg(m)
+	}
+	return z.Set(m)
 }
-func c07ModE(z, x, y *big.Int) *big.Int { // Euclidean modulus: non-negative
+func c07ModE(z, x, y *big.Int) *big.Int { // Euclidean modulus: 0 <= r < |y|
 	c07DivChecks(y)
-	r := vs.Big("mod")
-	vs.Assume(r.Sign() >= 0 && r.CmpAbs(y) < 0)
-	return z.Set(r)
+	m := vs.BigU("mod", 258)
+	vs.Assume(m.CmpAbs(y) < 0)
+	return z.Set(m)
 }
